@@ -817,12 +817,16 @@ def class_signatures(case, failure):
     not one atomic block (it loses against any concurrent mutator of a related path).  Only
     for outcomes that are merely non-linearizable; a crash / deadlock / corrupted internal
     state always needs its exact signature."""
-    if failure != "not-linearizable":
-        return []
+    if failure == "not-linearizable":
+        suffix = ""
+    elif failure.startswith("crash:"):
+        suffix = " [%s]" % failure      # same method, same escaping exception class
+    else:
+        return []                       # deadlock / timeout / corrupted state: exact only
     out = []
     for th in case["threads"]:
         for c in th:
-            s = "%s.%s||*" % (case["fs"], c["m"])
+            s = "%s.%s||*%s" % (case["fs"], c["m"], suffix)
             if s not in out:
                 out.append(s)
     return out
